@@ -18,10 +18,11 @@
   A record stands for the part `range.start .. range.end` of its source edge `from_id → to_id`;
   its event position is the point at `range.start`, `to` the point at `range.end`.
 
-  The model mirrors the code as it is, including three defects (see Props/C07.lean):
-  the lower part pushed by `splitAtVertex` keeps the stale `range.start` of its source record;
-  `mergeCoincident` uses `solve_t_for_y`, which is 0 for a level edge; `curveSegment` stores the
-  parameters of the flipped curve with the endpoint ids of the unflipped one.
+  The model mirrors the code as it is, including its defect (see Props/C07.lean): the lower part
+  pushed by `splitAtVertex` keeps the stale `range.start` of its source record.  Two former
+  defects are repaired in /repo and the model mirrors the repaired code: `curveSegment` (fix
+  8662f1bc: parameters of the original curve for a curve flattened from its end) and
+  `mergeCoincident` (fix 456c058b: split parameter solved along the larger extent).
 
   Mathlib-free.
 -/
@@ -133,12 +134,19 @@ structure CurveLoop (α : Type) where
   prev : P α
   first : Option (P α)
 
+/-- the parameter stored for a piece: the flattening's own, or — for a curve flattened from its
+end (`needs_swap`, fix 8662f1bc) — `1.0 - t`, the parameter of the original curve -/
+def pieceT (needsSwap : Bool) (t : α) : α := if needsSwap then one - t else t
+
 /-- one call of the flattening callback -/
-def curveStep (winding : Int) (toId : Nat) (s : CurveLoop α) (l : Piece α) : CurveLoop α :=
+def curveStep (needsSwap : Bool) (winding : Int) (toId : Nat) (s : CurveLoop α) (l : Piece α) :
+    CurveLoop α :=
   if l.a == l.b then s else
   let b1 := if s.first.isSome && isAfter l.a l.b && isAfter l.a s.prev
-            then s.bld.pushRec (vertexEventOnCurve l.a l.t0 s.bld.prevId toId) else s.bld
-  let b2 := b1.pushEdge (addEdge l.a l.b winding b1.prevId toId l.t0 l.t1)
+            then s.bld.pushRec (vertexEventOnCurve l.a (pieceT needsSwap l.t0) s.bld.prevId toId)
+            else s.bld
+  let b2 := b1.pushEdge (addEdge l.a l.b winding b1.prevId toId
+    (pieceT needsSwap l.t0) (pieceT needsSwap l.t1))
   ⟨b2, l.a, if s.first.isSome then s.first else some l.b⟩
 
 /-- the part of the curve builders after the flattening loop -/
@@ -156,15 +164,16 @@ def curveTail (b0 : Builder α) (s : CurveLoop α) (from_ to : P α) (toId : Nat
 
 /-- `quadratic_bezier_segment` / `cubic_bezier_segment`: the curve is flattened from its upper
 end (`needs_swap`: the flattening of the FLIPPED curve is used, winding −1), and the pieces are
-stored with the flattening's own parameters and the endpoint ids `prev_endpoint_id → to_id` of the
-unflipped curve. `flat` / `flatFlipped`: the flattening of the curve / of the flipped curve. -/
+stored with the parameters of the ORIGINAL curve (`1 - t` of the flipped flattening, since fix
+8662f1bc) and the endpoint ids `prev_endpoint_id → to_id` of the original curve.
+`flat` / `flatFlipped`: the flattening of the curve / of the flipped curve. -/
 def Builder.curveSegment (b : Builder α) (to : P α) (toId : Nat) (flat flatFlipped : List (Piece α)) :
     Builder α :=
   let from_ := b.current
   let needsSwap := isAfter from_ to
   let start := if needsSwap then to else from_
   let s := (if needsSwap then flatFlipped else flat).foldl
-    (curveStep (if needsSwap then -1 else 1) toId) ⟨b, start, none⟩
+    (curveStep needsSwap (if needsSwap then -1 else 1) toId) ⟨b, start, none⟩
   curveTail b s from_ to toId needsSwap
 
 /-! ### The sweep's edges: pending (`PendingEdge`) and active (`ActiveEdge`) -/
@@ -226,10 +235,20 @@ def touchActive (a : Active α) (ta : α) (ip : P α) : Active α :=
 def solveTForY (a b : P α) (y : α) : α :=
   if b.y - a.y == zero then zero else (y - a.y) / (b.y - a.y)
 
+/-- lyon_geom `LineSegment::solve_t_for_x` -/
+def solveTForX (a b : P α) (x : α) : α :=
+  if b.x - a.x == zero then zero else (x - a.x) / (b.x - a.x)
+
+/-- the split parameter of `merge_coincident_edges`: solved along the larger extent of the edge
+(fix 456c058b; before: always `solve_t_for_y`) -/
+def splitT (cur dest splitPoint : P α) : α :=
+  if abs (dest.y - cur.y) < abs (dest.x - cur.x) then solveTForX cur dest splitPoint.x
+  else solveTForY cur dest splitPoint.y
+
 /-- `merge_coincident_edges` (`split = true`): the longer of two coincident pending edges is
 removed and its part beyond the shorter one's end `splitPoint` becomes a new record. -/
 def mergeCoincident (cur : P α) (lower : Pending α) (splitPoint : P α) : EdgeRec α :=
-  let t := solveTForY cur lower.to splitPoint.y
+  let t := splitT cur lower.to splitPoint
   ⟨splitPoint, lower.to, remapT t lower.src.t0 lower.rangeEnd, lower.rangeEnd, lower.winding, true,
     lower.src.fromId, lower.src.toId⟩
 
